@@ -59,3 +59,21 @@ pub fn coq_list<T: AsRef<str>>(items: &[T]) -> String {
 pub fn coq_nlist(items: &[u64]) -> String {
     coq_list(&items.iter().map(|x| x.to_string()).collect::<Vec<_>>())
 }
+
+// ---- user types whose paths end like the five std paths the type-name rewriter shortens (E6): a user crate may
+// well have a module `string` with a type `String` (heapless::string::String, bumpalo::boxed::Box, ...)
+pub mod string {
+    pub struct String(pub u8);
+}
+pub mod vec {
+    pub struct Vec<T>(pub T);
+}
+pub mod boxed {
+    pub struct Box<T>(pub T);
+}
+pub mod option {
+    pub struct Option<T>(pub T);
+}
+pub mod result {
+    pub struct Result<T, E>(pub T, pub E);
+}
